@@ -527,13 +527,26 @@ impl Engine for Lifetime {
         let prios: Vec<u32> = (0..n).map(|_| rng.below(4) as u32).collect();
         let mut m = Model::new(directed, n);
         let mut next_edge = 100;
-        let initial = gen::gen_initial(rng, &mut m, &mut next_edge, if small { 4 } else { 10 });
+        let mut initial = gen::gen_initial(rng, &mut m, &mut next_edge, if small { 4 } else { 10 });
+        // now and then a node with 128-400 edges (parallel edges to the few other nodes, self-loops,
+        // edges back): whatever a library builds for long lists - an index, a cache, a summary -
+        // must not own nodes either
+        let long_lists = rng.chance(1, 1500);
+        if long_lists {
+            for _ in 0..rng.range(128, 400) {
+                next_edge += 1;
+                let x = rng.below(n);
+                let e = if rng.chance(4, 5) { (0, x, next_edge) } else { (x, 0, next_edge) };
+                m.edges.push(crate::model::MEdge { val: e.2, u: e.0, v: e.1 });
+                initial.push(e);
+            }
+        }
         let cfg = GenCfg {
             hub: None,
             provs: vec![Prov::Own, Prov::Clone, Prov::EdgeSrc, Prov::EdgeDst],
             w: [36, 12, 22, 6, 16, 6, 2],
         };
-        let nops = rng.below(if tier == Tier::Quick { 10 } else { 25 });
+        let nops = if long_lists { rng.below(3) } else { rng.below(if tier == Tier::Quick { 10 } else { 25 }) };
         let mut ops = Vec::new();
         for _ in 0..nops {
             let op = gen::gen_op(rng, &m, &mut next_edge, &cfg);
